@@ -35,6 +35,19 @@ def walk(node):
                 stack.append(x)
 
 
+def walk_ordered(node):
+    """pre-order over all dict nodes, children in the order they were dumped (source order: a `let` before the
+    statements after it, a condition before its branches)"""
+    if isinstance(node, dict):
+        yield node
+        for v in node.values():
+            if isinstance(v, (dict, list)):
+                yield from walk_ordered(v)
+    elif isinstance(node, list):
+        for x in node:
+            yield from walk_ordered(x)
+
+
 def exprs(node, kind=None):
     for n in walk(node):
         if "k" in n and (kind is None or n["k"] == kind):
